@@ -122,3 +122,14 @@ add("C13", "exploration",
     "Observes dials made through websocket.DefaultDialer (what the code uses); a change that dials through another path would need the "
     "recorder to be extended. Pass-through uses clean paths only (http.ServeMux itself redirects unclean ones) and excludes the bare prefix '/shim'.",
     "property-based testing (rapid) + native go fuzzing: URL-class generators, dial-address confinement oracle", "3/C13")
+add("C14", "exploration",
+    "Banner: generated requests x wrapped-handler responses run through banner.Proxy in-process with a neutral recording ResponseWriter and "
+    "are compared with the wrapped handler's own response under a set-valued reference predicate written from the property text (altered "
+    "=> GET, Accept text/html, 200, non-attachment, HTML type; already framed => body identical, only cache/frame headers differ; frame "
+    "served => banner, frame src = requested URL, uncacheable, X-Frame-Options sameorigin). Shim script: generated bodies with <head> at "
+    "offsets around the 1024-byte window and generated read segmentations run through websockets.ShimBody (optionally followed by the "
+    "banner handler); the body must be the original or the original with exactly one script block spliced after the first <head>, and "
+    "must be spliced when <head> lies inside the first read. Native fuzz targets repeat both oracles on raw inputs in the thorough tier.",
+    "The predicate is liberal about letter case of media types (the code may recognise fewer documents as HTML, never more). The handler-level "
+    "pipeline (ModifyResponse then ResponseWriter) is rebuilt by the harness the way agent.go wires it.",
+    "property-based testing (rapid) + native go fuzzing: differential feature-on vs. wrapped response under a reference predicate; splice-validity oracle", "3/C14")
